@@ -1231,6 +1231,25 @@ func (e *FactEngine) newUniverse(req *Formula, body *ast.BlockStmt, target ...as
 			}
 		}
 	}
+	// len(x) / cap(x) are never negative: A(len|k) is impossible for k ≥ 0
+	var never []int
+	for i, a := range as {
+		if la, ok := e.linAtoms[a]; ok && la.k >= 0 {
+			single := ""
+			cnt := 0
+			for t, v := range la.terms {
+				if v != 0 {
+					cnt++
+					if v == 1 {
+						single = t
+					}
+				}
+			}
+			if cnt == 1 && (strings.HasPrefix(single, "len@0(") || strings.HasPrefix(single, "cap@0(")) {
+				never = append(never, i)
+			}
+		}
+	}
 	litTrue := func(v int, l lit) bool { return (v&(1<<uint(l.atom)) != 0) != l.neg }
 	for v := 0; v < n; v++ {
 		ok := true
@@ -1244,6 +1263,11 @@ func (e *FactEngine) newUniverse(req *Formula, body *ast.BlockStmt, target ...as
 			if v&(1<<uint(p.i)) != 0 && v&(1<<uint(p.j)) == 0 {
 				ok = false
 				break
+			}
+		}
+		for _, i := range never {
+			if v&(1<<uint(i)) != 0 {
+				ok = false
 			}
 		}
 		if ok {
@@ -1393,14 +1417,24 @@ func prefixOf(p, q string) bool {
 	return strings.HasPrefix(q, p) && (q[len(p)] == '.' || q[len(p)] == '[')
 }
 
-// kill forgets every atom that depends on path p.
+// callLike: the atom's value may depend on state reachable from (not just stored at) its paths.
+func callLike(a string) bool {
+	body := a
+	for _, pre := range []string{"eq(", "lt0(", "lt("} {
+		body = strings.TrimPrefix(body, pre)
+	}
+	return strings.Contains(body, "(")
+}
+
+// kill forgets every atom that depends on path p: atoms about p or something stored
+// under p; atoms that call methods on a prefix of p (their result may read p).
 func (w *walker) kill(s vset, p string) vset {
 	if p == "" {
 		return s
 	}
 	for i, a := range w.u.atoms {
 		for _, m := range w.e.mentions[a] {
-			if prefixOf(p, m) || prefixOf(m, p) {
+			if prefixOf(p, m) || (prefixOf(m, p) && callLike(a)) {
 				s = w.u.forget(s, i)
 				break
 			}
@@ -1483,9 +1517,11 @@ func (w *walker) effects(n ast.Node, s vset) vset {
 		case *ast.FuncLit:
 			return false
 		case *ast.CallExpr:
-			for _, a := range c.Args {
-				if ue, ok := ast.Unparen(a).(*ast.UnaryExpr); ok && ue.Op == token.AND {
-					s = w.kill(s, w.e.canon(ue.X, w.sc, nil))
+			if !readOnlyCallee(Callee(w.sc.info, c)) {
+				for _, a := range c.Args {
+					if ue, ok := ast.Unparen(a).(*ast.UnaryExpr); ok && ue.Op == token.AND {
+						s = w.kill(s, w.e.canon(ue.X, w.sc, nil))
+					}
 				}
 			}
 			if sel, ok := ast.Unparen(c.Fun).(*ast.SelectorExpr); ok && w.sc.info.Selections[sel] != nil {
@@ -1615,6 +1651,45 @@ func (p *Prog) writeSet(fi *FuncInfo, depth int) []string {
 	sort.Strings(out)
 	p.wsCache[fi] = out
 	return out
+}
+
+// readOnlyCallee: library functions that only read what their pointer arguments point to.
+func readOnlyCallee(f *types.Func) bool {
+	if f == nil || f.Pkg() == nil {
+		return false
+	}
+	p := f.Pkg().Path()
+	switch {
+	case strings.Contains(p, "go-playground/validator"):
+		return true
+	case p == "fmt" && !strings.HasPrefix(f.Name(), "Sscan") && !strings.HasPrefix(f.Name(), "Fscan") && !strings.HasPrefix(f.Name(), "Scan"):
+		return true
+	case p == "encoding/json" && strings.HasPrefix(f.Name(), "Marshal"):
+		return true
+	case p == "reflect" && f.Name() == "DeepEqual":
+		return true
+	}
+	return false
+}
+
+// nonNilProducer: calls that never return nil.
+func nonNilProducer(info *types.Info, x ast.Expr) bool {
+	call, ok := ast.Unparen(x).(*ast.CallExpr)
+	if !ok {
+		return false
+	}
+	if id, ok := call.Fun.(*ast.Ident); ok && id.Name == "new" {
+		if _, isB := info.Uses[id].(*types.Builtin); isB {
+			return true
+		}
+	}
+	if f := Callee(info, call); f != nil && f.Pkg() != nil {
+		p := f.Pkg().Path()
+		if (p == "k8s.io/utils/ptr" || p == "k8s.io/utils/pointer") && (f.Name() == "To" || strings.HasSuffix(f.Name(), "Ptr") || f.Name() == "String" || f.Name() == "Bool" || f.Name() == "Int" || f.Name() == "Int32" || f.Name() == "Int64") {
+			return true
+		}
+	}
+	return false
 }
 
 // pureMethod: no store through the receiver, and receiver-rooted calls are pure.
@@ -1916,6 +1991,8 @@ func (w *walker) assign(lhs ast.Expr, rhs ast.Expr, s vset) vset {
 			}
 		} else if a == "eq("+p+",nil)" {
 			if _, ok := ast.Unparen(rhs).(*ast.UnaryExpr); ok && strings.HasPrefix(rc, "&") {
+				s = w.u.assume(s, i, false)
+			} else if nonNilProducer(w.sc.info, rhs) {
 				s = w.u.assume(s, i, false)
 			}
 		}
@@ -2268,7 +2345,7 @@ func (w *walker) containsExprs(xs []ast.Expr) bool {
 func innermostBody(fn *FuncInfo, target ast.Node) *ast.BlockStmt {
 	body := fn.Decl.Body
 	ast.Inspect(fn.Decl.Body, func(n ast.Node) bool {
-		if fl, ok := n.(*ast.FuncLit); ok {
+		if fl, ok := n.(*ast.FuncLit); ok && ast.Node(fl) != target {
 			if fl.Body.Pos() <= target.Pos() && target.End() <= fl.Body.End() {
 				body = fl.Body
 			}
@@ -2297,12 +2374,34 @@ func (e *FactEngine) fnScope() *scope { return &scope{info: e.fn.Info(), local: 
 // description (when not ok) and an error for undecidable shapes.
 func (e *FactEngine) FactsAt(target ast.Node, req *Formula) (bool, string, error) {
 	body := innermostBody(e.fn, target)
-	u, err := e.newUniverse(req, body, target)
+	// synchronous callback literals (direct call arguments, not go/defer) see the facts of
+	// their creation point: walk outward while the enclosing literal is synchronous
+	chain := []*ast.BlockStmt{body}
+	for {
+		lit := litOfBody(e.fn, chain[0])
+		if lit == nil || !syncLiteral(e.fn, lit) {
+			break
+		}
+		chain = append([]*ast.BlockStmt{innermostBody(e.fn, lit)}, chain...)
+	}
+	u, err := e.newUniverse(req, chain[0], target)
 	if err != nil {
 		return false, "", err
 	}
-	w := &walker{e: e, u: u, sc: e.fnScope(), target: target}
-	w.stmts(body.List, u.valid.clone())
+	state := u.valid.clone()
+	var w *walker
+	for i, b := range chain {
+		var tgt ast.Node = target
+		if i+1 < len(chain) {
+			tgt = litOfBody(e.fn, chain[i+1])
+		}
+		w = &walker{e: e, u: u, sc: e.fnScope(), target: tgt}
+		w.stmts(b.List, state)
+		if e.undecided != "" || !w.hit {
+			break
+		}
+		state = w.at
+	}
 	if e.undecided != "" {
 		return false, "", fmt.Errorf("unsupported control flow: %s", e.undecided)
 	}
@@ -2399,4 +2498,38 @@ func (e *FactEngine) Cond(x ast.Expr) *Formula { return e.boolForm(x, e.fnScope(
 // CallResultAtom names the boolean first result of a two-value call at its call site.
 func (e *FactEngine) CallResultAtom(call *ast.CallExpr) string {
 	return "res0(" + e.canon(call, e.fnScope(), nil) + fmt.Sprintf(")@%d", call.Pos())
+}
+
+// litOfBody returns the function literal whose body is b (nil for the declaration body).
+func litOfBody(fn *FuncInfo, b *ast.BlockStmt) *ast.FuncLit {
+	var out *ast.FuncLit
+	ast.Inspect(fn.Decl.Body, func(n ast.Node) bool {
+		if fl, ok := n.(*ast.FuncLit); ok && fl.Body == b {
+			out = fl
+		}
+		return out == nil
+	})
+	return out
+}
+
+// syncLiteral: the literal is a direct argument (or callee) of a call that is not a go / defer
+// statement and is not stored: it runs while its creator is on the stack.
+func syncLiteral(fn *FuncInfo, fl *ast.FuncLit) bool {
+	path := pathTo(fn.Decl.Body, fl)
+	direct := false
+	for i := len(path) - 2; i >= 0; i-- {
+		switch path[i].(type) {
+		case *ast.CallExpr:
+			if i == len(path)-2 {
+				direct = true
+			}
+		case *ast.GoStmt, *ast.DeferStmt:
+			return false
+		case ast.Stmt:
+			return direct
+		case *ast.FuncLit:
+			return direct
+		}
+	}
+	return false
 }
